@@ -191,6 +191,45 @@ func scenarioPickTables(c *Ctx) (*hist, bool, error) {
 	return h, h.c.nFail > nf, nil
 }
 
+// expired-pending: a read-write transaction overwrites live committed keys with entries whose
+// TTL has already lapsed (and with a delete): its own Get and iterators must hide the keys — the
+// pending write is the newest version, however dead — and never fall through to the snapshot.
+func scenarioExpiredPending(c *Ctx) (*hist, bool, error) {
+	h, err := newHist(c, sysOpts{Detect: true, NKeep: 1, MaxLevels: 4, VThreshold: 32, TableSize: 1 << 20, BaseLevelSize: 8 << 10})
+	if err != nil {
+		return nil, false, err
+	}
+	defer h.close()
+	h.begin(0, true, 0)
+	for _, k := range []string{"a", "ab", "b", "c"} {
+		h.modify(0, []byte(k), []byte("live-"+k), 0, 1, 0)
+	}
+	h.commit(0, 0)
+	if err := h.flush(); err != nil {
+		return h, false, err
+	}
+	nf := h.c.nFail
+	h.begin(1, true, 0)
+	h.modify(1, []byte("a"), []byte("dead"), 0, 2, 1)     // expired long ago
+	h.modify(1, []byte("b"), nil, mDelete, 0, 0)          // pending delete
+	h.modify(1, []byte("d"), []byte("dead-new"), 0, 0, 1) // expired, no committed version below
+	for _, k := range []string{"a", "ab", "b", "c", "d"} {
+		h.get(1, []byte(k))
+	}
+	h.iterate(1, itOpts{}, nil)
+	h.iterate(1, itOpts{Reverse: true}, nil)
+	h.iterate(1, itOpts{Prefix: []byte("a")}, nil)
+	h.iterate(1, itOpts{All: true}, nil)
+	h.commit(1, 0)
+	h.begin(2, false, 0)
+	for _, k := range []string{"a", "ab", "b", "c", "d"} {
+		h.get(2, []byte(k))
+	}
+	h.iterate(2, itOpts{}, nil)
+	h.discard(2)
+	return h, h.c.nFail > nf, nil
+}
+
 type scenario struct {
 	id  string
 	run func(c *Ctx) (*hist, bool, error)
@@ -202,6 +241,8 @@ var scenarios = map[string][]scenario{
 	"C36": {{"F3", scenarioF3}, {"F10", scenarioF10}},
 	"C01": {{"F1", scenarioF1}},
 	"C05": {{"F33", scenarioF33}, {"pick-tables", scenarioPickTables}},
+	"C04": {{"expired-pending", scenarioExpiredPending}},
+	"C33": {{"expired-pending", scenarioExpiredPending}},
 }
 
 // runScenarios executes the witnesses for a property first (corpus), as correspondence cases
